@@ -2,5 +2,6 @@
    (independent of the proofs, so it still builds when a proof is broken). *)
 Require Extraction.
 Require Import ExtrOcamlBasic.
-From Adapt Require Import Num.Qaux Cola.CompoundCsModel.
-Extraction "c07_model.ml" gen_system cc_holdsb lv last_write run_trace runOnce_trace.
+From Adapt Require Import Num.Qaux Cola.CompoundCsModel Cola.SubCursorModel.
+Extraction "c07_model.ml" gen_system cc_holdsb lv last_write run_trace runOnce_trace
+  mf_call constructed cc_trace oracle_of cc_kind cc_nsubs.
